@@ -43,7 +43,7 @@ def HASHSEEDS(seed):
 
 
 CONSUMER_WEIGHTS = [(3, "compute_gi"), (2, "compute_tuple"), (2, "compute_dict"), (2, "for_iter"), (2, "mask_sum"),
-                    (2, "pileup_data"), (3, "two_tuple"), (2, "pileup_index"), (2, "track_data"), (2, "track_sum"),
+                    (2, "pileup_data"), (3, "two_tuple"), (2, "pileup_index"), (2, "pileup_index_memory"), (2, "track_data"), (2, "track_sum"),
                     (3, "ms_exhaust"), (3, "forbes"), (2, "jaccard"), (2, "ms_write"), (2, "left_join"),
                     (1, "caller_zip"), (1, "early_break")]
 SCHEDS = [(3, "fixed"), (1, "sweep")]
@@ -167,7 +167,7 @@ def generate(ctx):
         tag = "ab"[i]
         d = S.gen_data(tape, g, cons.kind, m, tag + ".")
         how = cons.hows[tape.draw(len(cons.hows), tag + ".how")]
-        if how == "table" and not d.entries:
+        if how in ("table", "table_strkey") and (not d.entries or (how == "table_strkey" and cons.kind != "interval")):
             how = "stream"
         k = S.file_k(tape, d, tag + ".")
         if False and cons.vulnerable == i:   # FX-C12-trailing-check-unreached is fixed in /repo: exclusion switched off
